@@ -242,3 +242,53 @@ mem_decl = Contract(
     properties=("C03", "C15", "C16"), min_obligations=1, no_replay=True,
 )
 CONTRACTS += [mem_decl, mem_create]
+
+# =================================================================================================
+# MemoryLowerer._coerce_to_signal_type: whatever is written into a cell arrives ON THE CELL'S SIGNAL — the value's own
+# reference when it already is on that signal, otherwise a +0 projection / a constant created on that signal.
+# (C13: an untyped value is never re-labelled with the cell's explicit signal behind the allocator's back.)
+# =================================================================================================
+REG_CALLS = []
+
+
+def _register_effect(ex, a):
+    REG_CALLS.append(("register", a.args))
+    return None
+
+
+registry_register = Contract(qualname="dsl_compiler/src/common/signal_registry.py::SignalTypeRegistry.register", params={"kwargs": ty.TOpaque("kw")},
+                             effect=_register_effect, verify=False, note="FRAME: a call is recorded; the coercion must not re-map signals in the registry")
+registry_resolve = Contract(qualname="dsl_compiler/src/common/signal_registry.py::SignalTypeRegistry.resolve", params={"self": ty.TOpaque("r"), "signal_key": ty.TOpaque("k")},
+                            returns=ty.TOpt(ty.TRecord((("name", ty.Str),))), verify=False, note="lookup (any answer)")
+
+
+def _coerce_post(a, res):
+    v = a.value_ref
+    if REG_CALLS:
+        return False  # frame: the signal registry is not written (an implicit type is never re-labelled here)
+    cs = [res.signal_type == a.signal_type]
+    if isinstance(v, SObj):
+        cs.append(Implies(v.signal_type == a.signal_type, res is v))
+        if res is v:
+            cs.append(v.signal_type == a.signal_type)  # returned unchanged only when it already is on the cell's signal
+        else:
+            cs.append(res._fields.get("@projection_of") is v)
+    else:
+        cs.append(ops.eq(res._fields.get("@const_value"), v))
+    return And(*cs)
+
+
+coerce_contract = Contract(
+    qualname=ML + "_coerce_to_signal_type",
+    params={"self": ty.TObj("MemoryLowerer", only=("MemoryLowerer",)), "value_ref": _VREF, "signal_type": ty.Str, "node": ty.TOpaque("ast")},
+    requires=[("(reset frame log)", lambda a: REG_CALLS.clear() or True)],
+    ensures=[("the written value is on the cell's signal: itself, a +0 projection of itself, or the constant on that signal; the signal registry is not written", _coerce_post)],
+    uses={"SignalTypeRegistry.register": registry_register, "SignalTypeRegistry.resolve": registry_resolve, "ASTLowerer._infer_signal_category": "skip",
+          "IRBuilder.arithmetic": arithmetic, "IRBuilder.const": const, "ASTLowerer.ensure_signal_registered": "skip", "opaque.warning": "skip",
+          "ProgramDiagnostics.warning": "skip", "MemoryLowerer._error": "skip"},
+    dynamic_types={"self": {"parent": ty.TObj("ASTLowerer", only=("ASTLowerer",)), "ir_builder": ty.TObj("IRBuilder", only=("IRBuilder",))},
+                   "self.ir_builder": {"signal_registry": ty.TObj("SignalTypeRegistry", only=("SignalTypeRegistry",))},
+                   "self.parent": {"diagnostics": ty.TObj("ProgramDiagnostics", only=("ProgramDiagnostics",))}},
+    properties=("C03", "C13"), min_obligations=2, no_replay=True,
+)
+CONTRACTS.append(coerce_contract)
